@@ -56,6 +56,18 @@ func c10Delete(db *pebble.DB, key []byte, o *pebble.WriteOptions) error {
 	c10DB.del(key)
 	return nil
 }
+// DeleteRange: every key k with start <= k < end.
+func c10DeleteRange(db *pebble.DB, start, end []byte, o *pebble.WriteOptions) error {
+	var ks, vs [][]byte
+	for i := range c10DB.keys {
+		if bytes.Compare(c10DB.keys[i], start) >= 0 && bytes.Compare(c10DB.keys[i], end) < 0 {
+			continue
+		}
+		ks, vs = append(ks, c10DB.keys[i]), append(vs, c10DB.vals[i])
+	}
+	c10DB.keys, c10DB.vals = ks, vs
+	return nil
+}
 func c10Compact(db *pebble.DB, start, end []byte, parallelize bool) error { return nil }
 func c10Close(db *pebble.DB) error                                        { return nil }
 
